@@ -181,8 +181,20 @@ def render(model, outdir):
         for k, m in enumerate(sparse):
             layer = g["layers"].get(m["name"])
             if layer is not None:
-                coords = ",\n".join(num(m["design_loc"][a["tag"]]) for a in axes)
-                extra = [f"associatedMasterId = {ids[full[0]['name']]};", "attr = {", "coordinates = (", coords, ");", "};"]
+                # a brace layer lists coordinates for the leading axes only and takes the rest from the master it is
+                # associated with: hang it off the master sharing the longest tail of its location, spell out the rest
+                loc = [m["design_loc"][a["tag"]] for a in axes]
+
+                def tail(fm):
+                    fl = [fm["design_loc"][a["tag"]] for a in axes]
+                    t = 0
+                    while t < len(axes) and fl[len(axes) - 1 - t] == loc[len(axes) - 1 - t]:
+                        t += 1
+                    return t
+                assoc = max(full, key=tail)
+                ncoords = max(1, len(axes) - tail(assoc))
+                coords = ",\n".join(num(v) for v in loc[:ncoords])
+                extra = [f"associatedMasterId = {ids[assoc['name']]};", "attr = {", "coordinates = (", coords, ");", "};"]
                 ls.append(layer_text(layer, f"brace-{g['name']}-{k}", extra) .replace("layerId = ", "layerId = ", 1))
         G.append(",\n".join(ls))
         G.append(");")
